@@ -260,7 +260,11 @@ func TestC15Acceptance(t *testing.T) {
 	rapid.Check(t, func(rt *rapid.T) {
 		memo := genMemoSeed(rt, w)
 		c := caseC15Memo{}
-		switch pick(rt, "class", []string{"mutated", "mutated", "mutated", "targeted", "targeted", "numeric-enum", "valid", "fuzzed", "hostile-actions"}) {
+		switch pick(rt, "class", []string{"mutated", "mutated", "mutated", "targeted", "targeted", "numeric-enum", "valid", "fuzzed", "hostile-actions", "text", "text"}) {
+		case "text":
+			var k string
+			c.Memo, k = kit.TextMutation(rt, memo)
+			rec.Label("mutation", "text:"+k)
 		case "hostile-actions":
 			tree, _ := kit.ParseJSON(memo)
 			kit.HostileActionList(rt, tree)
